@@ -179,6 +179,28 @@ def sizes_dropped(dense_to, cap, subpath="", exclude="datasets"):
     return sorted(v for v in s if v > cap)
 
 
+def thresholds(hi, lo=64, subpath="", exclude="datasets"):
+    """candidate thresholds of a *derived* quantity (a total number of samples, a byte count): powers of two, the code's
+    integer constants, the platform constants of env_constants() and those divided by the item sizes 4 and 8"""
+    t = set([64, 128, 256, 512, 1024]) | set(code_constants(subpath=subpath, exclude=exclude))
+    for e in env_constants():
+        t.update([e, e // 4, e // 8])
+    return sorted(v for v in t if lo <= v <= hi)
+
+
+def product_pairs(ns, cap_total, lo=64, minimum=3, subpath=""):
+    """(m, n) such that the number of intervals m-1 (and so the oversampled length (m-1)*n+1) crosses c // n for every
+    threshold c: where a block of c samples / c // n intervals ends"""
+    out = set()
+    for c in thresholds(cap_total, lo=lo, subpath=subpath):
+        for n in ns:
+            for d in (-1, 0, 1, 2, 3):
+                m = c // n + d
+                if m >= minimum and (m - 1) * n + 1 <= cap_total:
+                    out.add((m, n))
+    return sorted(out)
+
+
 def long_grid(m, kind):
     """m strictly increasing abscissae, exactly representable (dyadic): 'uniform' 0, 1/2, 1, ...; 'offset' the same
     starting at -3; 'gaps' steps cycling 1/2, 1, 1/4, 2; 'late-gap' uniform with one double step in the last third"""
